@@ -49,6 +49,9 @@ func VH_C18() {
 		if vBool() {
 			d := "/" + vPathString(h, "ab")
 			vAssume(len(d) > 1 && d != homeDir && d != currDir)
+			if vParam("relmaps", 0) == 1 && vBool() {
+				d = d[1:] // a mapping whose prefix is not an absolute path (module paths, foreign drive letters)
+			}
 			if vBool() {
 				d += "/" // a mapping may be registered with a trailing slash
 			}
